@@ -6,6 +6,9 @@ Require Import MTX.Lib.PathClean MTX.Model.C26_RecPath MTX.Model.C06_PathName.
 Import ListNotations.
 Local Open Scope Z_scope.
 
+(* time.Time as the drivers ship it: Unix seconds, nanoseconds, zone offset in seconds *)
+Definition inst (u ns off : Z) : instant := mkI u ns off.
+
 Inductive del_obs := ODInvalid | ODNoConf | ODEscapes | ODRemove (p : list Z).
 
 Inductive case :=
